@@ -25,6 +25,9 @@ PRE = "From DF Require Import Base.Prelude Model.RefSQL Model.RewriteRules.\nOpe
 
 KF5 = "C03-KF5-column-free-predicate-pushed-below-aggregate-without-group-by"
 KF6 = "C03-KF6-not-in-two-valued-when-equijoin-predicate-is-not-extracted"
+KF7 = "C03-KF7-sort-with-fetch-0-panics-in-TopK-when-eliminate_limit-is-absent"
+KF8 = "C03-KF8-correlated-not-in-null-aware-anti-join-ignores-correlation-filter"
+KF9 = "C03-KF9-stacked-filters-over-projection-with-duplicate-column-names-when-push_down_filter-is-absent"
 KF5_WHAT = ("C03-KF5 push_down_filter pushes a predicate without column references (e.g. HAVING FALSE) below an Aggregate that has no "
             "GROUP BY (`cols.iter().all(..)` is vacuously true): SELECT count(*) FROM t HAVING FALSE returns one row (0) instead of "
             "no row under the rule sets {push_down_filter} and default-minus-eliminate_filter; the unoptimised plan and the default "
@@ -58,22 +61,56 @@ def having_const_below(x):
 
 
 def short_key(k):
-    """'C01-KF1 ... + C01-KF3 ...' -> 'C03-via-C01-KF1+KF3'"""
-    parts = [p.strip().split(" ")[0] for p in k.split(" + ")]
-    return "C03-via-" + parts[0] + "".join("+" + p[len("C01-"):] for p in parts[1:])
+    """'C01-KF1 ... + C01-KF3 ...' -> 'C03-via-C01-KF1+KF3'.  KF2 (INTERSECT / EXCEPT ALL planned as semi / anti joins) is a defect
+    of the logical plan BUILDER, present in the unoptimised plan too: it is dropped from the key; a pure KF2 deviation -> None"""
+    parts = [p.strip().split(" ")[0][len("C01-"):] for p in k.split(" + ")]
+    parts = [p for p in parts if p != "KF2"]
+    return "C03-via-C01-" + "+".join(parts) if parts else None
 
 
 def explanations(c):
     """(key, rewritten query) candidates that would explain rows differing from the reference"""
     out = []
     for key, c2 in known_variants({"q": c["q"], "tables": c["tables"]}):
-        out.append((short_key(key), c2["q"]))
+        out.append((short_key(key) or "not-optimizer", c2["q"]))
     q5 = having_const_below(c["q"])
     if q5 != c["q"]:
         out.append((KF5, q5))
     if has_node(c["q"], lambda n: n and n[0] == "insub"):
         out.append((KF6, deviate_all_in(c["q"])))
     return out
+
+
+def _corr(x):
+    """does the JSON contain a column reference that escapes its own scope (depth >= 1)"""
+    if isinstance(x, list):
+        if x and x[0] == "col":
+            return x[1] >= 1
+        return any(_corr(y) for y in x)
+    return False
+
+
+def stacked_filters_dup_names(plan):
+    """Filter directly over Projection directly over Filter, the projection listing two columns with the same unqualified name"""
+    if not plan:
+        return False
+    ls = plan.split("\n")
+    for i in range(len(ls) - 2):
+        a, b, c_ = ls[i].lstrip(), ls[i + 1].lstrip(), ls[i + 2].lstrip()
+        if a.startswith("Filter:") and b.startswith("Projection:") and c_.startswith("Filter:"):
+            names = [x.strip().split(".")[-1] for x in b[len("Projection:"):].split(",")]
+            if len(set(names)) < len(names):
+                return True
+    return False
+
+
+def structural_class(c, g):
+    """classes of known engine defects recognised by the shape of the input (no precise rewriting is available)"""
+    if set(g["rs"]) <= {"without:push_down_filter"} and stacked_filters_dup_names(g.get("plan")):
+        return KF9
+    if has_node(c["q"], lambda n: n and n[0] == "insub" and n[1] is True and _corr(n[3])):
+        return KF8
+    return None
 
 
 NOT_EXECUTABLE = ("This feature is not implemented", "not implemented", "NotImplemented", "not supported", "Unsupported", "unsupported",
@@ -116,6 +153,7 @@ def run(pid, tier, seed, replay):
     items = []          # (case index, group index)
     terms = []
     n_plan_err, plan_err_msgs, other_errs = 0, {}, {}
+    seen_out, alias, n_panics = {}, {}, {}
     for ci, c in enumerate(cases):
         if "panic" in c:
             ck.fail_input("engine panicked: " + c["panic"][:300], brief(c))
@@ -129,19 +167,38 @@ def run(pid, tier, seed, replay):
             continue
         for gi, g in enumerate(c["groups"]):
             if "rows" in g["out"]:
+                # outputs of one query that are the same bag are one reference question (except under a top-level ORDER BY)
+                rows = g["out"]["rows"]
+                ck_ = (ci, json.dumps(rows if c["mode"].startswith("ordered") else sorted(json.dumps(r) for r in rows)))
+                if ck_ in seen_out:
+                    alias[(ci, gi)] = seen_out[ck_]
+                    continue
+                seen_out[ck_] = (ci, gi)
                 items.append((ci, gi))
-                terms.append(r_case(c, g["out"]["rows"]))
+                terms.append(r_case(c, rows))
+            elif g["out"]["err"].startswith("panic:"):
+                msg = g["out"]["err"]
+                key = KF7 if "k > 0" in msg else None
+                n_panics[key or "other"] = n_panics.get(key or "other", 0) + 1
+                ck.fail_input("engine panicked under optimizer rule sets %s: %s" % (g["rs"][:4], msg[:200]),
+                              brief(c, {"rule_sets": g["rs"], "plan": g.get("plan")}), key=key)
             else:
                 k = err_class(g["out"]["err"])
                 if k != "not-executable":
                     other_errs[k] = other_errs.get(k, 0) + len(g["rs"])
     shard = 40
-    bad, log, dt1 = vlib.coq_eval_cases(PRE, "c03_case", "c03_check", terms, shard=shard, tag="c03")
+    # pass 1: which outputs are NOT plainly an answer of the reference; pass 2 (on those only): run-time error vs disagreement
     agree_bad, log2, dt2 = vlib.coq_eval_cases(PRE, "c03_case", "c03_agree", terms, shard=shard, tag="c03a")
-    if any(not isinstance(b, int) for b in bad + agree_bad):
-        ck.problem("tie", "evaluation of the reference in coqc failed:\n" + (log + log2)[-3000:])
-    bad = [b for b in bad if isinstance(b, int)]
-    agree_bad = {b for b in agree_bad if isinstance(b, int)}
+    if any(not isinstance(b, int) for b in agree_bad):
+        ck.problem("tie", "evaluation of the reference in coqc failed:\n" + log2[-3000:])
+    agree_bad = sorted(b for b in agree_bad if isinstance(b, int))
+    bad, dt1 = [], 0.0
+    if agree_bad:
+        sub, log, dt1 = vlib.coq_eval_cases(PRE, "c03_case", "c03_check", [terms[i] for i in agree_bad], shard=shard, tag="c03")
+        if any(not isinstance(b, int) for b in sub):
+            ck.problem("tie", "evaluation of the reference in coqc failed:\n" + log[-3000:])
+        bad = [agree_bad[b] for b in sub if isinstance(b, int)]
+    agree_bad = set(agree_bad)
     wf_bad = set()
     if bad:
         sub, log3, _ = vlib.coq_eval_cases(PRE, "c03_case", "c03_wellformed", [terms[i] for i in bad], shard=shard, tag="c03w")
@@ -173,6 +230,8 @@ def run(pid, tier, seed, replay):
         status[it] = "illformed" if i in wf_bad else "referr" if i in ref_err else "agree"
     for j, i in enumerate(dis):
         status[items[i]] = ("dis", explained.get(j))
+    for it, rep in alias.items():
+        status[it] = status[rep]
 
     # ---- verdict per case
     n_known, n_new, n_c01_only, n_compared, n_pair_ok = {}, 0, 0, 0, 0
@@ -195,6 +254,9 @@ def run(pid, tier, seed, replay):
                 continue
             key = st[1]
             same_as_unoptimised = (base == "none" and gi == gbase)
+            if key == "not-optimizer":
+                n_c01_only += 1
+                continue
             if same_as_unoptimised:
                 # the UNOPTIMISED plan itself deviates from the reference: not an optimizer matter (C01's territory)
                 n_c01_only += 1
@@ -202,6 +264,8 @@ def run(pid, tier, seed, replay):
                     ck.fail_input("the unoptimised plan's rows differ from the reference SQL semantics (not caused by the optimizer)",
                                   brief(c, {"rule_sets": g["rs"][:6], "rows": g["out"]["rows"]}), key="C03-unoptimised-plan-differs-from-reference")
                 continue
+            if key is None:
+                key = structural_class(c, g)
             what = ("rows returned under optimizer rule sets %s differ from the reference SQL semantics" % (g["rs"][:4],))
             bst = status.get((ci, gbase)) if gbase is not None else None
             extra = {"rule_sets_B": g["rs"], "rows_B": g["out"]["rows"], "plan_B": g.get("plan"),
@@ -250,8 +314,8 @@ def run(pid, tier, seed, replay):
     ck.coverage.update({
         "evaluations": variants_total,
         "distinct_nontrivial": len(nt),
-        "rule": "one generated query per case (C01 generator's 19 streams + c03_outer / c03_empty / c03_limit, round-robin, preceded by 5 fixed witnesses) "
-                "over 1..3 tables (0..8 rows, nullable BIGINT/VARCHAR/BOOLEAN, ~25% NULLs), MemTables with 1..3 partitions, target_partitions 1..3; "
+        "rule": "one generated query per case (C01 generator's 19 streams + c03_outer / c03_empty / c03_limit, round-robin, preceded by 8 fixed witnesses) "
+                "over 1..3 tables (0..8 rows, nullable BIGINT/VARCHAR/BOOLEAN, ~25%% NULLs), MemTables with 1..3 partitions, target_partitions 1..3; "
                 "each analysed plan optimised + executed under none / all / only:<rule> / without:<rule> for the %d rules of Optimizer::new(); "
                 "non-trivial = every executable variant agrees with the reference, some variant returned a row, more than one distinct optimised plan, "
                 "distinct (query, tables)" % len(rules),
@@ -270,6 +334,7 @@ def run(pid, tier, seed, replay):
         "unoptimised_plan_deviations_not_attributed_to_optimizer": n_c01_only,
         "failures_explained_by_known_findings": n_known,
         "new_failures": n_new,
+        "variant_panics": n_panics,
         "traces_validated_against_impl": len(terms),
         "samples": [{"sql": c["sql"], "tables": [t["rows"] for t in c["tables"]], "nplans": c["nplans"],
                      "groups": [{"rule_sets": len(g["rs"]), "out": g["out"] if "rows" in g["out"] else {"err": g["out"]["err"][:100]}} for g in c["groups"]]}
